@@ -50,6 +50,8 @@ def run(ctx):
                           "and nothing further is read", floor=2)
     ctx.rule("C06.conv", "From<T> for Shape / TryFrom<Shape> for T use the same variant (round trip is the identity); the "
                          "mismatch error is {requested: T::shapetype(), actual: shape.shapetype()}", floor=26)
+    ctx.rule("C06.forward", "the typed iterator and random access hand the record reader's result on unchanged: its error (in particular "
+                            "the type-mismatch error) is returned as the item, its shape is the item's payload — no filtering by error kind", floor=3)
     ctx.rule("C06.bulk", "convert_shapes_to_vec_of returns the first conversion error and pushes every converted value in order", floor=2)
 
     vars_ = shape_variants(F)
@@ -279,3 +281,53 @@ def run(ctx):
                 okf = False
         ctx.ob("C06.bulk", "first error returned", okf, "a failing S::try_from makes the function return that error",
                site=ctx.site_of(F, f["def"]))
+
+
+    # --- C06.forward --------------------------------------------------------------------------
+    from .. import discipline
+    from .C14 import iterator_next
+    fns = []
+    fn = iterator_next(F)
+    if fn:
+        fns.append(fn)
+    else:
+        ctx.missing("C06.forward", "<ShapeIterator as Iterator>::next")
+    rn = F.inherent_method("reader::ShapeReader", "read_nth_shape_as")
+    if rn:
+        fns.append(rn[0])
+    else:
+        ctx.missing("C06.forward", "ShapeReader::read_nth_shape_as")
+    for g in fns:
+        sites, paths, err = discipline.fallible_sites(F, g)
+        if sites is None:
+            ctx.unanalysable("C06.forward", g["def"], err)
+            continue
+        rec = [(s_, w) for s_, w in sites if "read" in w and "shape" in w]
+        ok = bool(rec)
+        why = []
+        for s_, w in rec:
+            I = absint.Interp(F, inline=discipline.modular_inline, fail_site=s_)
+            for p in I.run(g):
+                if not any(x == s_ for x, _ in discipline.site_effects(p)):
+                    continue
+                if p.status != 'return' or not discipline.carries_error(p.ret, ('err', s_)):
+                    ok = False
+                    why.append("a failing record read yields %s" % absint.term_str(p.ret)[:60])
+                else:
+                    # the error must be the item itself, untouched: Some(Err(e)) with e = the record reader's error
+                    item = agg_field(p.ret, '0') if is_agg(p.ret, None, 'Some') else None
+                    e = agg_field(item, '0') if is_agg(item, None, 'Err') else None
+                    if e != ('err', s_):
+                        ok = False
+                        why.append("the error is rewrapped as %s" % absint.term_str(e)[:60] if e else "not an item")
+        # success: the payload is the shape the record reader returned
+        for p in paths:
+            if p.status == 'return' and is_agg(p.ret, None, 'Some') and is_agg(agg_field(p.ret, '0'), None, 'Ok'):
+                shp = agg_field(agg_field(p.ret, '0'), '0')
+                rets = [e[-1] for e in p.eff if e[0] == 'call' and any(e[4] == s_ for s_, w in rec)]
+                if not any(absint.contains(shp, r) for r in rets):
+                    ok = False
+                    why.append("the item is not the shape the record reader returned")
+        ctx.ob("C06.forward", g["def"].split("::")[-1], ok, "; ".join(sorted(set(why))) or
+               "Err(e) -> Some(Err(e)) untouched, Ok((_, shape)) -> Some(Ok(shape)) (%d record-read sites)" % len(rec),
+               site=ctx.site_of(F, g["def"]), key="C06.forward|%s" % g["def"].split("::")[-1])
